@@ -133,7 +133,7 @@ Section GetSpec.
 
   Theorem get_rec_spec : forall f inl s cur p trav sp fl ss kl,
     swfb s = true -> cur_ok inl s cur -> addr f inl s p = Some (sp, fl, ss, kl) ->
-    get_post (osub_at cur sp) (get_rec env ko o f s cur p trav).
+    get_post (osub_at cur sp) (get_rec env fo ko o f s cur p trav).
   Proof.
     induction f as [|f IH]; intros inl s cur p trav sp fl ss kl Hw Hcur Ha; [discriminate|].
     destruct p as [|e0 prest].
@@ -151,14 +151,14 @@ Section GetSpec.
           pose proof (keys_okb_NoDup _ _ Hokb) as Hdist.
           rewrite osub_at_entry.
           assert (Hrec : forall e trav', tl_find mk es = Some e ->
-                    get_post (osub_at (Some e) sp') (get_rec env ko o f (SList ord keys mn mx sfs) (Some e) prest trav')).
+                    get_post (osub_at (Some e) sp') (get_rec env fo ko o f (SList ord keys mn mx sfs) (Some e) prest trav')).
           { intros e trav' Hf. pose proof (tl_find_In _ _ _ Hf) as Hi. destruct (Hent _ _ Hi) as [(fsp & -> & Hko) Hne].
             eapply IH; eauto. split; [auto | simpl; eauto]. }
           assert (Hnone : tl_find mk es = None -> get_post (osub_at None sp') (Ok [])).
           { intros _. simpl. intros _. exists []. split; auto. constructor. }
           rewrite get_rec_list. destruct ord.
           -- rewrite (ordered_keys_parse_ok env fo ko sfs (ekeys e0) keys mk Hpk). cbn [bind].
-             pose proof (get_oall_spec env fo ko o (get_rec env ko o f) (SList true keys mn mx sfs) sfs keys e0 prest trav true mk
+             pose proof (get_oall_spec env fo ko o (get_rec env fo ko o f) (SList true keys mn mx sfs) sfs keys e0 prest trav true mk
                            Hwild Hpk es Heok Hdist) as Hl.
              destruct (tl_find mk es) as [e|] eqn:Ef.
              ++ destruct Hl as (kk & ->). apply get_post_bind. now apply Hrec.
@@ -172,7 +172,7 @@ Section GetSpec.
                 rewrite (get_first_spec env fo ko _ (SList false [k] mn mx sfs) sfs e0 prest trav false mk k s0 Hnd Hpk
                            (Hkl k (or_introl eq_refl)) Hs0 es Heok).
                 destruct (tl_find mk es) as [e|] eqn:Ef; [now apply Hrec | now apply Hnone].
-             ++ pose proof (get_all_spec env fo ko o (get_rec env ko o f) (SList false (k :: k2 :: ks) mn mx sfs) sfs (k :: k2 :: ks) e0 prest trav false mk
+             ++ pose proof (get_all_spec env fo ko o (get_rec env fo ko o f) (SList false (k :: k2 :: ks) mn mx sfs) sfs (k :: k2 :: ks) e0 prest trav false mk
                            Hwild Hpk es Heok Hdist) as Hl.
                 destruct (tl_find mk es) as [e|] eqn:Ef.
                 ** destruct Hl as (kk & ->). apply get_post_bind. now apply Hrec.
@@ -183,7 +183,7 @@ Section GetSpec.
           assert (Hfs : exists fs, t = TCont fs).
           { destruct Hs as [->|(o1 & k1 & a1 & b1 & ->)]; exact Hshape. }
           destruct Hfs as [fs ->].
-          assert (Hunf : get_rec env ko o (S f) s (Some (TCont fs)) (e0 :: prest) trav = get_struct env ko o f sfs fs (e0 :: prest) trav).
+          assert (Hunf : get_rec env fo ko o (S f) s (Some (TCont fs)) (e0 :: prest) trav = get_struct env fo ko o f sfs fs (e0 :: prest) trav).
           { destruct Hs as [->|(o1 & k1 & a1 & b1 & ->)]; [apply get_rec_cont | apply get_rec_entry]. }
           rewrite Hunf. unfold get_struct. rewrite Hsh, (find_field_del _ _ _ _ _ _ Hf).
           destruct (find_field_path _ _ _ _ _ _ _ Hf) as [Hin Hmp].
@@ -438,7 +438,7 @@ Section DelSpec.
 
   Theorem del_rec_spec : forall f inl s cur p sp fl ss kl,
     swfb s = true -> cur_ok inl s cur -> addr f inl s p = Some (sp, fl, ss, kl) -> p <> [] ->
-    exists c', del_rec env ko false f s cur p = (c', Ok tt) /\ del_post inl s cur sp fl kl c'.
+    exists c', del_rec env fo ko false f s cur p = (c', Ok tt) /\ del_post inl s cur sp fl kl c'.
   Proof.
     induction f as [|f IH]; intros inl s cur p sp fl ss kl Hw Hcur Ha Hp; [discriminate|].
     destruct p as [|e0 prest]; [congruence|]. clear Hp.
@@ -487,7 +487,7 @@ Section DelSpec.
                    keys_okb ord (map fst (upd mk e'' es)) = true /\
                    (forall x, In x (upd mk e'' es) -> x = (mk, e'') \/ In x es) /\
                    (e'' = e -> upd mk e'' es = es)) ->
-                exists c', del_entry upd (del_rec env ko false f) (SList ord keys mn mx sfs) prest mk e es = (c', Ok tt) /\
+                exists c', del_entry upd (del_rec env fo ko false f) (SList ord keys mn mx sfs) prest mk e es = (c', Ok tt) /\
                   del_post true (SList ord keys mn mx sfs) (Some (TList es)) (StK mk :: sp') (true :: fl') kl c').
       { intros upd e Ef Hupd. pose proof (tl_find_In _ _ _ Ef) as Hi. destruct (Hent _ _ Hi) as [(fsp & -> & Hko) Hne].
         unfold del_entry. destruct prest as [|e1 prest'].
@@ -569,7 +569,7 @@ Section DelSpec.
       assert (Hfs : exists fs, t = TCont fs).
       { destruct Hs as [->|(o1 & k1 & a1 & b1 & ->)]; exact Hshape. }
       destruct Hfs as [fs ->].
-      assert (Hunf : del_rec env ko false (S f) s (Some (TCont fs)) (e0 :: prest) = del_struct env ko false f sfs fs (e0 :: prest)).
+      assert (Hunf : del_rec env fo ko false (S f) s (Some (TCont fs)) (e0 :: prest) = del_struct env fo ko false f sfs fs (e0 :: prest)).
       { destruct Hs as [->|(o1 & k1 & a1 & b1 & ->)]; [apply del_rec_cont | apply del_rec_entry]. }
       rewrite Hunf. clear Hunf. unfold del_struct. rewrite Hf.
       destruct (find_field_path _ _ _ _ _ _ _ Hf) as [Hin Hmp].
@@ -771,7 +771,7 @@ Section Top.
   Theorem get_node_at o S t p sp fl ss kl :
     g_shadow o = false -> g_wild o = false -> swfb S = true -> root_ok S t ->
     addr_of S p = Some (sp, fl, ss, kl) ->
-    get_post o (sub_at t sp) (get_node env ko o S t p).
+    get_post o (sub_at t sp) (get_node env fo ko o S t p).
   Proof.
     intros Hsh Hwi Hw Hr Ha. unfold get_node.
     exact (get_rec_spec env fo ko o Hsh Hwi _ _ _ _ _ [] _ _ _ _ Hw (root_cur_ok _ _ Hr) Ha).
@@ -793,7 +793,7 @@ Section Top.
       set_node env fo ko o tv S t p = Ok t' ->
       exists nl, set_leaf env fo ko o tv ss (sub_at t sp) = (nl, Ok tt)
         /\ sub_at t' sp = nl /\ root_ok S t' /\ frame (Some t) (Some t') sp
-        /\ get_post og nl (get_node env ko og S t' p).
+        /\ get_post og nl (get_node env fo ko og S t' p).
     Proof.
       intros Hnil Hw Hr Ha Hl Hset.
       pose proof (root_path_nonempty _ _ _ _ _ _ _ Hr Ha Hl) as Hp.
@@ -809,7 +809,7 @@ Section Top.
       (forall j, tv <> TVJsonIetf j) -> decode_tv env ko (s_tol_json o) ty tv = Ok v ->
       set_node env fo ko o tv S t p = Ok t' ->
       sub_at t' sp = Some (TLeaf v)
-      /\ (exists q, get_node env ko og S t' p = Ok [{| gn_path := q; gn_data := Some (TLeaf v) |}])
+      /\ (exists q, get_node env fo ko og S t' p = Ok [{| gn_path := q; gn_data := Some (TLeaf v) |}])
       /\ root_ok S t' /\ frame (Some t) (Some t') sp.
     Proof.
       intros Hw Hr Ha Hj Hd Hset.
@@ -825,7 +825,7 @@ Section Top.
       j <> JNull -> dec_json env fo ty j = Ok v ->
       set_node env fo ko o (TVJsonIetf j) S t p = Ok t' ->
       sub_at t' sp = Some (TLeaf v)
-      /\ (exists q, get_node env ko og S t' p = Ok [{| gn_path := q; gn_data := Some (TLeaf v) |}])
+      /\ (exists q, get_node env fo ko og S t' p = Ok [{| gn_path := q; gn_data := Some (TLeaf v) |}])
       /\ root_ok S t' /\ frame (Some t) (Some t') sp.
     Proof.
       intros Hw Hr Ha Hj Hd Hset.
@@ -841,7 +841,7 @@ Section Top.
       set_node env fo ko o (TVLeafList tvs) S t p = Ok t' ->
       exists vs, tvs <> [] /\ mapM (decode_tv env ko (s_tol_json o) ty) tvs = Ok vs
       /\ sub_at t' sp = Some (TLeafList vs)
-      /\ (exists q, get_node env ko og S t' p = Ok [{| gn_path := q; gn_data := Some (TLeafList vs) |}])
+      /\ (exists q, get_node env fo ko og S t' p = Ok [{| gn_path := q; gn_data := Some (TLeafList vs) |}])
       /\ root_ok S t' /\ frame (Some t) (Some t') sp.
     Proof.
       intros Hw Hr Ha Hset.
@@ -852,12 +852,12 @@ Section Top.
   End SetLeaf.
 
   (* ---------- DeleteNode ---------- *)
-  Lemma delete_root S fs : delete_node env ko false S (TCont fs) [] = Ok (TCont []).
+  Lemma delete_root S fs : delete_node env fo ko false S (TCont fs) [] = Ok (TCont []).
   Proof. reflexivity. Qed.
 
   Theorem delete_node_at S t p sp fl ss kl :
     swfb S = true -> root_ok S t -> addr_of S p = Some (sp, fl, ss, kl) -> p <> [] ->
-    exists t', delete_node env ko false S t p = Ok t'
+    exists t', delete_node env fo ko false S t p = Ok t'
       /\ (forall q, sprefix sp q -> sub_at t' q = None)
       /\ del_frame (Some t) (Some t') sp
       /\ (kl = false -> root_ok S t')
@@ -880,8 +880,8 @@ Section Top.
   Theorem get_after_delete og S t p sp fl ss t' :
     g_shadow og = false -> g_wild og = false -> g_tolerate_nil og = true ->
     swfb S = true -> root_ok S t -> addr_of S p = Some (sp, fl, ss, false) -> p <> [] ->
-    delete_node env ko false S t p = Ok t' ->
-    exists ns, get_node env ko og S t' p = Ok ns /\ nil_nodes ns.
+    delete_node env fo ko false S t p = Ok t' ->
+    exists ns, get_node env fo ko og S t' p = Ok ns /\ nil_nodes ns.
   Proof.
     intros Hgs Hgw Hgt Hw Hr Ha Hp Hd.
     destruct (delete_node_at S t p sp fl ss false Hw Hr Ha Hp) as (t1 & Hd1 & Hsub & _ & Hr' & _).
@@ -893,7 +893,7 @@ Section Top.
   (* deleting twice is deleting once *)
   Theorem delete_idempotent S t p sp fl ss t' :
     swfb S = true -> root_ok S t -> addr_of S p = Some (sp, fl, ss, false) -> p <> [] ->
-    delete_node env ko false S t p = Ok t' -> delete_node env ko false S t' p = Ok t'.
+    delete_node env fo ko false S t p = Ok t' -> delete_node env fo ko false S t' p = Ok t'.
   Proof.
     intros Hw Hr Ha Hp Hd.
     destruct (delete_node_at S t p sp fl ss false Hw Hr Ha Hp) as (t1 & Hd1 & Hsub & _ & Hr' & Hcl & _).
@@ -911,7 +911,7 @@ Section Top.
   Fixpoint del_seq (S : schema) (t : tree) (ps : list dpath) : result tree :=
     match ps with
     | [] => Ok t
-    | p :: r => bind (delete_node env ko false S t p) (fun t1 => del_seq S t1 r)
+    | p :: r => bind (delete_node env fo ko false S t p) (fun t1 => del_seq S t1 r)
     end.
 
   (* a leaf / leaf-list path (not a key leaf) with its address, and a payload *)
@@ -961,7 +961,7 @@ Section Top.
     (forall sp', In sp' sps2 -> ~ sprefix sp sp') ->
     set_seq o S t (ops1 ++ (p, tv) :: ops2) = Ok t' ->
     sub_at t' sp = Some (TLeaf v)
-    /\ exists q, get_node env ko og S t' p = Ok [{| gn_path := q; gn_data := Some (TLeaf v) |}].
+    /\ exists q, get_node env fo ko og S t' p = Ok [{| gn_path := q; gn_data := Some (TLeaf v) |}].
   Proof.
     intros Hsh Hig Hgs Hgw Hw ops1 p tv ops2 sps1 sps2 t t' sp fl ty d v Hf1 Hf2 Hr Ha Hj Hd Hlater Hs.
     rewrite set_seq_app in Hs. destruct (set_seq o S t ops1) as [t1| |] eqn:E1; try discriminate.
